@@ -3,7 +3,8 @@
 
 def accumulator_model(db):
     """oasis_write and oasis_putc interpreted (sa/minieval, C integer widths) in each state of the stream - buffering into the
-    CBLOCK buffer (room left, exact fit, overflow), CRC32, CHECKSUM32, no validation - on small byte strings and, for the CRC
+    CBLOCK buffer (room left, exact fit, overflow; with no scheme, CRC32 or CHECKSUM32 selected), CRC32, CHECKSUM32, both requested
+    (CRC32 has precedence, as in the END record), no validation - on small byte strings and, for the CRC
     chunking, on virtual buffers of UINT_MAX, UINT_MAX + 1 and 2 UINT_MAX + 5 bytes. reallocate / memcpy / crc32 / fwrite / putc
     are answered by the harness: crc32 registers the bytes (or the byte range) it is fed after those of the signature value it
     continues; checksum32 is interpreted itself. Returns the list of problems."""
@@ -73,8 +74,14 @@ def accumulator_model(db):
         ref[0] = mi
         buf = [0xAA] * used + [0xEE] * (cap - used)
         mi.writable.add(id(buf))
-        out = M.Obj(file='FILE', data=M.Ptr(buf, 0) if kind == 'buffer' else 0, cursor=M.Ptr(buf, used) if kind == 'buffer' else 0, data_size=cap if kind == 'buffer' else 0,
-                    signature=sig0, crc32=int(kind == 'crc'), checksum32=int(kind == 'sum'), error_code=0)
+        label = kind
+        buffered = kind.startswith('buffer')
+        out = M.Obj(file='FILE', data=M.Ptr(buf, 0) if buffered else 0, cursor=M.Ptr(buf, used) if buffered else 0, data_size=cap if buffered else 0,
+                    signature=sig0, crc32=int(kind in ('crc', 'both', 'buffer+crc')), checksum32=int(kind in ('sum', 'both', 'buffer+sum')), error_code=0)
+        if kind == 'both':
+            kind = 'crc'            # both schemes requested: CRC32 has precedence everywhere (oasis_write, the END record), so it must here
+        if buffered:
+            kind = 'buffer'
         if fq.endswith('oasis_putc'):
             env = {f.params[0]['n']: payload, f.params[1]['n']: out}
             n_bytes, want = 1, (payload & 0xFF,)
@@ -90,7 +97,7 @@ def accumulator_model(db):
         except M.Return as r:
             rv = r.v
         except M.OutOfBounds as ex:
-            problems.append('%s, %s, %s bytes: %s' % (fq, kind, n_bytes, ex))
+            problems.append('%s in state %s, %s bytes: %s' % (fq.replace('gdstk::', ''), label, n_bytes, ex))
             return
 
         def flat(segs):
@@ -103,7 +110,7 @@ def accumulator_model(db):
                 else:
                     o.append(s_)
             return tuple(o), rng
-        tag = '%s in state %s, %s bytes' % (fq.replace('gdstk::', ''), kind, n_bytes)
+        tag = '%s in state %s, %s bytes' % (fq.replace('gdstk::', ''), label, n_bytes)
         if kind == 'buffer':
             d, cu = out['data'], out['cursor']
             if filelog or out['signature'] != sig0:
@@ -146,15 +153,15 @@ def accumulator_model(db):
             problems.append(tag + ': the signature changes although no validation scheme is selected')
     W, P = 'gdstk::oasis_write', 'gdstk::oasis_putc'
     runs = 0
-    for kind in ('buffer', 'crc', 'sum', 'none'):
+    for kind in ('buffer', 'buffer+crc', 'buffer+sum', 'crc', 'sum', 'both', 'none'):
         for payload in ([7], [1, 2, 3], [250, 251, 252, 253, 254, 255], []):
-            for used in ((2, 5, 6) if kind == 'buffer' else (0,)):
+            for used in ((2, 5, 6) if kind.startswith('buffer') else (0,)):
                 run(W, kind, payload, used=used, sig0=0xFFFFFF00 if kind == 'sum' else 0x11)
                 runs += 1
         run(W, kind, [9, 8, 7, 6, 5, 4, 3, 2], size=4, sig0=0x11)
         runs += 1
         for c in (0x41, 0x1FF, 0):
-            for used in ((2, 7, 8) if kind == 'buffer' else (0,)):
+            for used in ((2, 7, 8) if kind.startswith('buffer') else (0,)):
                 run(P, kind, c, used=used, sig0=0xFFFFFFFF if kind == 'sum' else 0x11)
                 runs += 1
     for big in (UMAX, UMAX + 1, 2 * UMAX + 5):
